@@ -1,6 +1,6 @@
 (* C13 - the property theorems, nothing else.  Each is closed by [exact] of a lemma proved in Msg/*.v and followed by
    Print Assumptions.  [mz_table] is the handler table tools/facts_c13.py regenerates from the source on every run. *)
-From Icv Require Import Base.Tac Msg.MzModel Msg.MzFacts Msg.MzProofs Msg.MzObs Msg.MzOracleProofs Msg.MzIdx.
+From Icv Require Import Base.Tac Facts.Facts_c13 Msg.MzModel Msg.MzFacts Msg.MzProofs Msg.MzObs Msg.MzOracleProofs Msg.MzIdx.
 From Coq Require Import String.
 Local Open Scope nat_scope.
 Local Open Scope string_scope.
@@ -13,6 +13,25 @@ Theorem C13_ischildof_order : forall t, mz_wf t ->
   (forall a b, mz_is_child_of t a b = true -> mz_is_child_of t b a = true -> a = b).
 Proof. exact mz_is_child_of_order. Qed.
 Print Assumptions C13_ischildof_order.
+
+(* MessageHandler's origin construction: a sender outside the receiver's zone is attributed to its OWN zone whatever
+   "originZone" it claims; only a peer of the receiver's own zone is trusted to name the zone it relays for; a connection
+   without Endpoint object has no zone at all.  [mz_eff_zone] is the zone C13_sound's entitlement is stated for. *)
+Theorem C13_origin_claim_sound : forall l s,
+  (forall ez, mz_ep s = Some (Some ez) -> ez <> l ->
+     mz_from_zone l s = Some ez /\ mz_eff_zone l s = Some ez) /\
+  (forall z, mz_from_zone l s = Some z ->
+     exists ez, mz_cauth s = true /\ mz_cident s = Some ez /\
+       ((ez = Some z /\ z <> l) \/ (ez = Some l /\ mz_cclaim s = Some z))) /\
+  (mz_ep s = None -> mz_from_zone l s = None /\ mz_eff_zone l s = None).
+Proof. exact mz_origin_claim_sound. Qed.
+Print Assumptions C13_origin_claim_sound.
+
+(* ... and that construction is the one the translator recognises in the source now (None = compared by the run only) *)
+Theorem C13_origin_rule_source :
+  match Facts_c13.f_mz_origin_rule with Some r => r = "claim_iff_sender_in_local_zone" | None => True end.
+Proof. exact mz_origin_rule_now. Qed.
+Print Assumptions C13_origin_rule_source.
 
 (* every registered method: whoever gets past the handler's checks is entitled in the sense of the statement.
    Hypotheses: acyclic tree; the addressed object is one this node can hold (own zone, below, or global);
